@@ -320,8 +320,10 @@ CLAIMED = {
              "environment calls; sys_dns: the whole library against a scripted DNS responder and accepting/refusing/ignoring "
              "loopback listeners, checked against the property's oracle (address, errno, local address, elapsed time).",
         note="Found and fixed here: F-13a (resolve_sync never ended on failure), F-13b (dangling local address), F-13c (re-bind). "
-             "Not proved: the Happy Eyeballs statement at tconnect level ('connects whenever some address of either family "
-             "accepts') is covered per track by the theorems and end-to-end by sys_dns only; time bounds are observed, not "
+             "Happy Eyeballs at the level of the tconnect instance: one track per address family, each confined to its family's descriptor "
+             "(C13_happy_one_track_per_family), and a failure is reported only when every track has failed - a track still connecting "
+             "yields EAGAIN, a connected one is handed out (C13_tc_fails_only_when_all_tracks_failed); 'connects whenever some address of "
+             "either family accepts' over real time is observed end-to-end by sys_dns; time bounds are observed, not "
              "proved; c-ares' ordering of mixed A/AAAA answers is not modelled. K-connect is an assumption.",
         technique="Lean 4 invariant proof over unbounded poll sequences and address lists + differential correspondence (unit) + live-socket oracle runs",
         ref="DESIGN.md §5 C13"),
